@@ -44,7 +44,11 @@ FTYPES = {
     "intok": ("int", ["1", "'2'", "-1", "'0'"]),
     "when": ("datetime", ["datetime(2020,1,2,3,4,5)", "'2020-01-02T03:04:05'", "None", "'x'"]),
 }
-ORDER = [t for t in FTYPES if t != "intok"]
+# int fields with further Field arguments (only in the explicit declarations at the end of decls())
+FTYPES["intdep"] = ("int", ["1", "'2'", "'x'"])          # may only be given together with field b
+FTYPES["intalias"] = ("int", ["1", "'2'", "'x'"])        # also answers to the key a2
+FKW = {"intdep": "dependencies=['b']", "intalias": "alias_from=['a2']"}
+ORDER = [t for t in FTYPES if t not in ("intok", "intdep", "intalias")]
 ADDITIONS = ["", "addition=False", "addition=int"]
 # further options of the declaration (the black-box item judgement runs under the same ones)
 XOPTS = ["", "ignore_constraints=True", "max_params=1", "data_first_search=True, ignore_alias_conflicts=True"]
@@ -83,6 +87,13 @@ def decls(tier):
     out.append(("SchemaProp", (("intok", True),)))
     for t in ORDER:
         out.append(("SchemaProp", (("intok", True), (t, t in ("int", "list", "nested")))))
+    # a field with a dependency / with a second spelling, next to a second (and third) field
+    for base in ("Schema", "DataClass", "func"):
+        for t2 in ("int", "list", "nested"):
+            out.append((base, (("intdep", False), (t2, False))))
+            out.append((base, (("intdep", False), (t2, False), ("int", True))))
+            out.append((base, (("intalias", True), (t2, False))))
+            out.append((base, (("intalias", False), (t2, True))))
     return out
 
 
@@ -110,7 +121,8 @@ def source(base, fields, add_expr):
         lines.append(f"    __options__ = Options({add_expr})" if add_expr else "    pass")
         for n, (t, req) in zip(NAMES, fields):
             ann = FTYPES[t][0]
-            lines.append(f"    {n}: {ann}" + ("" if req else " = Field(required=False)"))
+            kw = ", ".join(p for p in ("" if req else "required=False", FKW.get(t, "")) if p)
+            lines.append(f"    {n}: {ann}" + (f" = Field({kw})" if kw else ""))
         if base == "SchemaProp":
             lines += ["    @property", "    def p(self) -> PositiveInt:", "        return self.a"]
         lines.append("def make(opts):")
@@ -118,6 +130,9 @@ def source(base, fields, add_expr):
     else:
         params = []
         for n, (t, req) in zip(NAMES, fields):
+            if t in FKW:
+                params.append((f"{n}: {FTYPES[t][0]} = Param({'' if req else 'None, '}{FKW[t]})", req))
+                continue
             params.append((f"{n}: {FTYPES[t][0]}" + ("" if req else " = None"), req))
         if base == "varargs":
             sig = ", ".join([p for p, _ in params] + ["*args: int", "**kwargs: int"])
@@ -188,7 +203,11 @@ def inputs(base, fields, tier):
     for combo in itertools.product(*menus):
         if base == "posonly" and any(a is None and b is not None for a, b in zip(combo, combo[1:])):
             continue        # a position cannot be skipped
-        for ex in EXCESS:
+        excess = EXCESS
+        if fields and fields[0][0] == "intalias":
+            # the second spelling of field a: alone, with the same value, with another value, with an invalid value
+            excess = EXCESS[:2] + [(("a2", "1"),), (("a2", "5"),), (("a2", "'x'"),), (("a2", "5"), ("zz", "1"))]
+        for ex in excess:
             if base == "varargs":
                 for args in ((), ("1",), ("1", "'x'"), ("'x'", "2", "'w'"), ("'x'", "'w'", "3")):
                     yield combo, ex, args
@@ -221,6 +240,28 @@ def expected_failing(env, base, fields, add_expr, combo, ex, args, xopt=""):
         if fails_alone(env, t, vx, xopt):
             bad.add(n)
     is_func = base in ("func", "varargs", "posonly")
+    if fields and fields[0][0] == "intdep" and combo[0] is not None and "a" not in bad and combo[1] is None:
+        bad.add("<deps>")      # a is taken from the input, its dependency b is not given
+    n_extra = len(ex)
+    if fields and fields[0][0] == "intalias":
+        second = [vx for k, vx in ex if k == "a2"]
+        ex = tuple((k, vx) for k, vx in ex if k != "a2")
+        if second:
+            if combo[0] is None:
+                bad.discard("a")
+                if fails_alone(env, "int", second[0], xopt):
+                    bad.add("a")
+            elif "ignore_alias_conflicts" in xopt:
+                # no conflict; which spelling is taken (and whether an invalid one that is not taken is reported, once
+                # per spelling) is documented nowhere: decided only when both spellings are valid
+                if fails_alone(env, "int", combo[0], xopt) or fails_alone(env, "int", second[0], xopt):
+                    return None
+            elif second[0] != combo[0]:
+                if False:
+                    pass
+                else:
+                    bad.add("a")      # two spellings with different values: a conflict on the field (besides its invalid value)
+                    bad.add("<conflict>")
     for k, vx in ex:
         if is_func:
             # **kwargs: int converts every extra keyword
@@ -233,7 +274,7 @@ def expected_failing(env, base, fields, add_expr, combo, ex, args, xopt=""):
                 bad.add(k)
     if "max_params=1" in xopt:
         # more input keys than allowed is one more failing item (it names no key)
-        n_in = sum(1 for vx in combo if vx is not None) + len(ex)
+        n_in = sum(1 for vx in combo if vx is not None) + n_extra
         if n_in > 1:
             bad.add("<max_params>")
     if base == "SchemaProp" and not bad and "ignore_constraints" not in xopt:
@@ -277,6 +318,8 @@ def run_shard(shard, tier):
 def item_of(err):
     if type(err).__name__ == "ParamsExceedError":
         return "<max_params>"
+    if type(err).__name__ == "DependenciesAbsenceError":
+        return "<deps>"
     it = getattr(err, "item", None)
     return it
 
@@ -293,6 +336,12 @@ def one_case(acc, env, src, makers, base, fields, add_expr, combo, ex, args, xop
     acc.states += 1
     want = expected_failing(env, base, fields, add_expr, combo if base != "varargs" else
                             tuple(None if (i < len(args)) else c for i, c in enumerate(combo)) if False else combo, ex, args, xopt)
+    if want is None:
+        acc.extra["winner_undocumented_under_ignore_alias_conflicts"] += 1
+        return
+    # two spellings with different values: the field may be named by the conflict and by the invalid value of a spelling
+    conflict = "<conflict>" in want
+    want.discard("<conflict>")
     runs = {}
     for key, fn in makers.items():
         if "ENTERED" in env:
@@ -350,7 +399,8 @@ def one_case(acc, env, src, makers, base, fields, add_expr, combo, ex, args, xop
             return
         got = [item_of(e) for e in payload.errors]
         gset = set(got)
-        if len(got) != len(gset):
+        pairs = [(item_of(e), type(e).__name__) for e in payload.errors]
+        if len(pairs) != len(set(pairs)) or (len(got) != len(gset) and not conflict):
             viol("duplicate-item", f"[{tag}] item reported twice: {got}")
             return
         extra = gset - want
@@ -358,6 +408,8 @@ def one_case(acc, env, src, makers, base, fields, add_expr, combo, ex, args, xop
             viol("valid-item-reported", f"[{tag}] reported {sorted(map(str, extra))} which do not fail on their own (failing: {sorted(want)})")
             return
         cap = len(want) if m is None else min(m, len(want))
+        if conflict and m is not None:
+            continue        # the cap counts errors, and this field may carry two
         if len(gset) != cap:
             viol("count-" + ("over-cap" if len(gset) > cap else "missing-items"),
                  f"[{tag}] reported {sorted(map(str, gset))}, expected {cap} of the failing items {sorted(want)}")
